@@ -1,5 +1,6 @@
 #!/bin/bash
 # re-run every seeded change of all six rounds against the current checks, 4 at a time (own property + recorded cross-property checks)
+# ONLY=<file with lines '<round dir>/<id> ...'> restricts the run to the listed changes
 cd /verif
 declare -A EXTRA=( [seeded3/C03_2]="C03 C08" [seeded3/C19_1]="C19 C01" [seeded4/C05_1]="C05 C08" [seeded4/C08_2]="C08 C09" [seeded4/C19_2]="C19 C01" [seeded2/C19_2]="C19 C01"
   [seeded5/C05_1]="C05 C12" [seeded5/C17_1]="C17 C08" [seeded5/C19_2]="C19 C01 C11" [seeded5/C19_1]="C19 C01" [seeded5/C20_2]="C20 C12" [seeded5/C03_2]="C03 C14" [seeded5/C18_2]="C18 C13" [seeded5/C02_2]="C02 C11" [seeded5/C15_1]="C15 C14"
@@ -8,6 +9,7 @@ LIST=/tmp/reseed_list.$$; : > $LIST
 for r in seeded seeded2 seeded3 seeded4 seeded5 seeded6; do
   for d in $(ls $r | grep '^C[0-9][0-9]_'); do
     p=${d%%_*}
+    if [ -n "$ONLY" ] && ! grep -q "^$r/$d " "$ONLY"; then continue; fi
     echo "$r $d ${EXTRA[$r/$d]:-$p}" >> $LIST
   done
 done
